@@ -40,26 +40,32 @@ Forms == {"local", "self", "import", "from", "fromas", "rebind"}
 Sites == {"top", "loop", "block", "if", "include", "macro"}
 
 \* the call expression in the given form
-CallExpr(form, as) ==
-    CASE form = "local"  -> Call("mm", as)
-      [] form = "self"   -> MCall("_self", "mm", as)
-      [] form = "import" -> MCall("L", "mm", as)
-      [] form = "from"   -> Call("mm", as)
+\* mn: the macro's name ("mm", or the name of a built-in function: a macro is called, not the function)
+MName(c) == IF "mn" \in DOMAIN c THEN c.mn ELSE "mm"
+CallExpr(mn, form, as) ==
+    CASE form = "local"  -> Call(mn, as)
+      [] form = "self"   -> MCall("_self", mn, as)
+      [] form = "import" -> MCall("L", mn, as)
+      [] form = "from"   -> Call(mn, as)
       [] form = "fromas" -> Call("qq", as)
-      [] form = "rebind" -> Call("mm", as)
-ImportStmt(form) ==
+      [] form = "rebind" -> Call(mn, as)
+ImportStmt(mn, form) ==
     CASE form = "import" -> <<Import(LS(NT.t1), "L")>>
-      [] form = "from"   -> <<From(LS(NT.t1), <<"mm">>, <<"mm">>)>>
-      [] form = "fromas" -> <<From(LS(NT.t1), <<"mm">>, <<"qq">>)>>
-      [] form = "rebind" -> <<From(LS(NT.t3), <<"mm">>, <<"mm">>), From(LS(NT.t1), <<"mm">>, <<"mm">>)>>
+      [] form = "from"   -> <<From(LS(NT.t1), <<mn>>, <<mn>>)>>
+      [] form = "fromas" -> <<From(LS(NT.t1), <<mn>>, <<"qq">>)>>
+      [] form = "rebind" -> <<From(LS(NT.t3), <<mn>>, <<mn>>), From(LS(NT.t1), <<mn>>, <<mn>>)>>
       [] OTHER -> <<>>
-OtherLib == <<Macro("mm", <<Param("a"), Param("b"), Param("c")>>, <<T(<<79, 84, 72, 69, 82>>)>>)>>     \* prints OTHER
+OtherLib(mn) == <<Macro(mn, <<Param("a"), Param("b"), Param("c")>>, <<T(<<79, 84, 72, 69, 82>>)>>)>>     \* prints OTHER
 IsLocalForm(form) == form \in {"local", "self"}
 
 \* the caller's probe after the call: assignments in the body are invisible
 After == <<T(<<94>>), PrintS(Var("a")), T(<<124>>), PrintS(Var("w")), T(<<36>>)>>
 
-Defs(c) == <<Helper, Macro("mm", Params(c.ar, c.defs), MacroBody(c.bk, c.ar))>>
+\* dk = "spy": the default expressions are spy calls (every call that omits the argument evaluates its default again)
+ParamsOf(c) == IF "dk" \in DOMAIN c /\ c.dk = "spy"
+               THEN [i \in 1..c.ar |-> IF i \in c.defs THEN ParamD(PNames[i], Spy("sp", "d" \o ToString(i), DefaultOf(i))) ELSE Param(PNames[i])]
+               ELSE Params(c.ar, c.defs)
+Defs(c) == <<Helper, Macro(MName(c), ParamsOf(c), MacroBody(c.bk, c.ar))>>
 
 Site(c, form, callStmts) ==
     CASE c.site = "top"   -> callStmts \o After
@@ -71,14 +77,14 @@ Site(c, form, callStmts) ==
       [] c.site = "include" -> <<Inc(LS(NT.t2))>> \o After
 
 Tp(c, form) ==
-    LET call == <<PrintS(CallExpr(form, ArgsOf(c)))>> IN
+    LET call == <<PrintS(CallExpr(MName(c), form, ArgsOf(c)))>> IN
     IF c.site = "include" THEN
         ("main" :> Site(c, form, <<>>))
-        @@ ("t2" :> (IF IsLocalForm(form) THEN Defs(c) ELSE ImportStmt(form)) \o call)
-        @@ ("t1" :> Defs(c)) @@ ("t3" :> OtherLib)
+        @@ ("t2" :> (IF IsLocalForm(form) THEN Defs(c) ELSE ImportStmt(MName(c), form)) \o call)
+        @@ ("t1" :> Defs(c)) @@ ("t3" :> OtherLib(MName(c)))
     ELSE
-        ("main" :> (IF IsLocalForm(form) THEN Defs(c) ELSE ImportStmt(form)) \o Site(c, form, call))
-        @@ ("t1" :> Defs(c)) @@ ("t3" :> OtherLib)
+        ("main" :> (IF IsLocalForm(form) THEN Defs(c) ELSE ImportStmt(MName(c), form)) \o Site(c, form, call))
+        @@ ("t1" :> Defs(c)) @@ ("t3" :> OtherLib(MName(c)))
 
 \* sibling calls and calls from inside another macro only in the local forms (the
 \* property does not say which imports a macro body sees)
@@ -87,6 +93,11 @@ FormApplies(c, form) == (c.bk = "nested" \/ c.site = "macro") => form = "local"
 Cases == {[ar |-> ar, defs |-> defs, n |-> n, bk |-> bk, site |-> site, argstyle |-> st]
             : ar \in 0..MaxArity, defs \in SUBSET (1..MaxArity), n \in 0..(MaxArity + 1), bk \in BodyKinds, site \in Sites,
               st \in {"plain", "nulllast", "undeflast"}}
+\* macros named like built-in functions; defaults that are spy calls, the macro called several times (loop) and in two renders
+NamedCases == {[ar |-> 2, defs |-> {2}, n |-> n, bk |-> "print", site |-> site, argstyle |-> "plain", mn |-> mn]
+                 : n \in 0..3, site \in {"top", "loop", "include"}, mn \in {"max", "range", "min", "date", "length"}}
+SpyDefCases == {[ar |-> ar, defs |-> defs, n |-> n, bk |-> "print", site |-> site, argstyle |-> "plain", dk |-> "spy"]
+                 : ar \in 1..2, defs \in (SUBSET (1..2)) \ {{}}, n \in 0..2, site \in {"top", "loop", "block", "include"}}
 Valid(c) == /\ c.defs \subseteq 1..c.ar /\ c.n <= c.ar + 1 /\ (c.bk = "nested" => c.ar >= 1)
             /\ (c.argstyle # "plain" => c.n >= 1 /\ c.n <= c.ar /\ c.bk = "print" /\ c.site \in {"top", "loop"})
 
@@ -101,12 +112,13 @@ CaseOf(c) ==
     [prop |-> "C12", key |-> ToJson(c),
      tags |-> {"arity:" \o ToString(c.ar), "argc:" \o ToString(c.n), "body:" \o c.bk, "site:" \o c.site}
               \cup {"default:" \o ToString(i) : i \in c.defs}
-              \cup {"args:" \o c.argstyle} \cup (IF c.n > c.ar THEN {"extra-arg"} ELSE {}) \cup (IF c.n < c.ar THEN {"omitted-arg"} ELSE {}),
+              \cup {"args:" \o c.argstyle, "name:" \o MName(c)} \cup (IF "dk" \in DOMAIN c THEN {"spydefault"} ELSE {}) \cup (IF c.n > c.ar THEN {"extra-arg"} ELSE {}) \cup (IF c.n < c.ar THEN {"omitted-arg"} ELSE {}),
      entry |-> "main", ctx |-> Ctx,
-     runs |-> {[label |-> f, tp |-> Sources(Tp(c, f), LMin), xcalls |-> [id \in {} |-> 0]] : f \in {g \in Forms : FormApplies(c, g)}},
-     expect |-> [ok |-> ref.ok, out |-> ref.out, err |-> ref.err, calls |-> [id \in {} |-> 0]]]
+     runs |-> {[label |-> f, tp |-> Sources(Tp(c, f), LMin), xcalls |-> [id \in {} |-> 0], again |-> 1]
+                : f \in {g \in Forms : FormApplies(c, g)}},
+     expect |-> [ok |-> ref.ok, out |-> ref.out, err |-> ref.err, calls |-> [id \in {"d1", "d2"} |-> CountOf(ref.calls, id)]]]
 
-Init == cs \in {c \in Cases : Valid(c) /\ Ref(c, "local").ok}
+Init == cs \in {c \in Cases \cup NamedCases \cup SpyDefCases : Valid(c) /\ Ref(c, "local").ok}
 Next == UNCHANGED cs
 Spec == Init /\ [][Next]_cs
 Emit == PrintT(ToJson(CaseOf(cs)))
